@@ -20,6 +20,7 @@ Every class that stands for a numerical inequality is computed here, next to the
 import json
 import logging
 import math
+import os
 import signal
 import warnings
 
@@ -121,9 +122,9 @@ class Run(object):
         self.scaling = None      # (shift, scale) in use, filled from the first Controller
         self.kernel_dyk = 0
 
-    def emit(self, name, **kw):
+    def emit(self, _evname, **kw):
         if self.quiet == 0:
-            kw["ev"] = name
+            kw["ev"] = _evname
             self.ev.append(kw)
 
     def xid(self, x):
@@ -190,6 +191,12 @@ class Run(object):
             lo = P["lo"] if P["lo"] is not None else -1e20 * np.ones(len(x))
             hi = P["hi"] if P["hi"] is not None else 1e20 * np.ones(len(x))
             x = np.minimum(np.maximum(x, lo), hi)
+        return x
+
+    def to_user_noclip(self, xs):
+        x = np.array(xs, dtype=float)
+        if self.scaling is not None:
+            x = self.scaling[0] + x * self.scaling[1]
         return x
 
     def ident(self, xs_abs, rvec, obj, ns, en, xbase=None):
@@ -384,6 +391,25 @@ def install(run):
                 else:
                     run.emit("EvalAbort", nf=int(self.nf), nx=int(self.nx))
 
+        def trust_region_step(self, params, *a):
+            out = saved["S_Controller"].trust_region_step(self, params, *a)
+            if run.quiet == 0:
+                with np.errstate(all="ignore"):
+                    d, gopt, H = np.asarray(out[0], dtype=float), np.asarray(out[1], dtype=float), np.asarray(out[2], dtype=float)
+                    cl = [["norm_le_delta", "C13", bool(np.linalg.norm(d) <= self.delta * (1 + 1e-8))]]
+                    if self.h is not None and np.all(np.isfinite(gopt)) and np.all(np.isfinite(H)):
+                        # predicted reduction of the step handed to the main loop, with the code's own formula (controller.py:551)
+                        run.quiet += 1
+                        try:
+                            xo = self.model.xopt(abs_coordinates=True)
+                        finally:
+                            run.quiet -= 1
+                        hx = run.P["hval"](run.to_user_noclip(xo))
+                        mv = float(np.dot(d, gopt + 0.5 * H.dot(d))) + run.P["hval"](run.to_user_noclip(xo + d))
+                        cl.append(["pred_reduction_nonneg", "C13", bool(hx - mv >= 0.0)])
+                run.emit("Kernel", name="tr_step", cl=cl, insolver=True)
+            return out
+
         def calculate_ratio(self, x, current_iter, rvec_list, d, gopt, H):
             with np.errstate(all="ignore"):
                 objopt = _fl(self.model.objopt())
@@ -467,6 +493,55 @@ def install(run):
             return res
         return rec_dykstra
 
+    # step kernels as the controller calls them: contract classes on the solver's own (realistic) inputs (C12, C13)
+    from . import kernels as K
+    saved["kern"] = dict(trsbox=C.trsbox, trsbox_geometry=C.trsbox_geometry, ctrsbox_pgd=C.ctrsbox_pgd, ctrsbox_sfista=C.ctrsbox_sfista,
+                         ctrsbox_geometry=C.ctrsbox_geometry)
+
+    def k_trsbox(xopt, g, H, sl, su, delta, *a, **kw):
+        out = saved["kern"]["trsbox"](xopt, g, H, sl, su, delta, *a, **kw)
+        if run.quiet == 0 and np.all(np.isfinite(g)) and np.all(np.isfinite(H)) and np.all(np.isfinite(xopt)):
+            with np.errstate(all="ignore"):
+                e = K.trsbox_classes("trsbox", np.asarray(xopt, dtype=float), np.asarray(g, dtype=float), np.asarray(H, dtype=float),
+                                     np.asarray(sl, dtype=float), np.asarray(su, dtype=float), float(delta), out[0], out[1])
+            run.emit("Kernel", name="trsbox", cl=e["cl"], insolver=True)
+        return out
+
+    def k_geom(xbase, c, g, lower, upper, Delta, *a, **kw):
+        out = saved["kern"]["trsbox_geometry"](xbase, c, g, lower, upper, Delta, *a, **kw)
+        if run.quiet == 0 and np.all(np.isfinite(g)) and np.isfinite(c) and np.all(np.isfinite(xbase)):
+            with np.errstate(all="ignore"):
+                x = np.asarray(out, dtype=float)
+                sdir = x - xbase
+                t = 1e-12 * max(1.0, float(np.max(np.abs(x))), float(Delta))
+                val = abs(c + float(np.dot(g, sdir)))
+                gg = np.asarray(g, dtype=float)
+                cl = [["box_1e-12", "C13", bool(np.all(x >= lower - t) and np.all(x <= upper + t))],
+                      ["norm_le_delta", "C13", bool(np.linalg.norm(sdir) <= Delta * (1 + 1e-8))],
+                      ["not_worse_than_zero", "C13", bool(val >= abs(c) * (1 - 1e-12))]]
+                if not np.any((np.abs(gg) > 0) & (np.abs(gg) < 1e-10)):
+                    best = K.geom_oracle(float(c), gg, np.minimum(lower - xbase, -1e-14), np.maximum(upper - xbase, 1e-14), float(Delta))
+                    cl.append(["global_max_1e-6", "C13", bool(val >= (1 - 1e-6) * best - 1e-300)])
+            run.emit("Kernel", name="trsbox_geometry", cl=cl, insolver=True)
+        return out
+
+    def k_norm(name, dpos):
+        orig = saved["kern"][name]
+
+        def w(*a, **kw):
+            out = orig(*a, **kw)
+            if run.quiet == 0:
+                d = np.asarray(out[0] if isinstance(out, tuple) else out, dtype=float)
+                Delta = float(a[dpos])
+                run.emit("Kernel", name=name, cl=[["norm_le_delta", "C13", bool(np.linalg.norm(d) <= Delta * (1 + 1e-8))]], insolver=True)
+            return out
+        return w
+    C.trsbox = k_trsbox
+    C.trsbox_geometry = k_geom
+    C.ctrsbox_pgd = k_norm("ctrsbox_pgd", 4)
+    C.ctrsbox_sfista = k_norm("ctrsbox_sfista", 4)
+    C.ctrsbox_geometry = k_norm("ctrsbox_geometry", 4)
+
     S.Controller = RecController
     S.solve_main = rec_solve_main
     C.Model = RecModel
@@ -497,6 +572,8 @@ def install(run):
         S.solve_main = saved["S_solve_main"]
         C.Model = saved["C_Model"]
         S.dykstra, C.dykstra, M.dykstra, T.dykstra = saved["dyk"]["S"], saved["dyk"]["C"], saved["dyk"]["M"], saved["dyk"]["T"]
+        for kname, kf in saved["kern"].items():
+            setattr(C, kname, kf)
         lg.removeHandler(hnd)
         lg.setLevel(old_level)
         lg.propagate = old_prop
@@ -547,6 +624,16 @@ def record(inst, timeout=60.0, extra_return=None, rng_state=None):
     except Exception as e:  # the solver's own exceptions are events, not machinery failures
         outcome = "raise"
         exc = e
+        # ... unless the exception was raised by the harness's own code (a wrapper): that is a machinery failure, never a verdict
+        if not isinstance(e, problems.InjectedError):
+            tb = e.__traceback__
+            last = None
+            while tb is not None:
+                last = tb.tb_frame.f_code.co_filename
+                tb = tb.tb_next
+            if last is not None and os.path.realpath(last).startswith(os.path.realpath(vlib.VERIF)):
+                import traceback
+                raise WrapperError("exception raised inside the harness: " + "".join(traceback.format_exception(type(e), e, e.__traceback__))[-1500:])
     finally:
         signal.setitimer(signal.ITIMER_REAL, 0)
         signal.signal(signal.SIGALRM, old)
